@@ -195,6 +195,40 @@ def check_case(case, cell):
                                   "%s: force differs by %.3g, torque by %.3g" % (name, df, dt)))
         if float(np.linalg.norm(np.asarray(first[1])[:3] - w12[:3])) > tolf:
             fails.append(fail("fresh-differs/" + tag, "same call on fresh bodies differs"))
+    # return_details=True must not change the wrenches
+    rd = call_lib(lambda: contact_forces(fresh(case["a"], ya), fresh(case["b"], yb), return_details=True))
+    if isinstance(rd, LibError):
+        fails.append(fail("exception/contact_forces-details/" + rd.type, repr(rd)))
+    else:
+        dfd = float(np.linalg.norm(np.asarray(rd[1])[:3] - w12[:3]))
+        dtd = float(np.linalg.norm(np.asarray(rd[1])[3:] - w12[3:]))
+        if bool(rd[0]) != bool(inter) or dfd > tolf or dtd > tolt:
+            fails.append(fail("details-differ/" + tag,
+                              "return_details=True changes the result: force by %.3g, torque by %.3g" % (dfd, dtd)))
+
+    # broad phase on REUSED bodies: b1 against b2, then b3, then b2 - the same
+    # history once with trees and once brute force (identical re-expression
+    # sequence, hence bitwise identical vertices)
+    def bp_history(use_tree):
+        b1, b2, b3 = fresh(case["a"], ya), fresh(case["b"], yb), fresh(case["c"], 1.0)
+        out = []
+        for other in (b2, b3, b2):
+            cs = find_contact_surface(b1, other, use_aabb_trees=use_tree)
+            out.append(set(zip([int(i) for i in cs.intersecting_tetrahedra1],
+                               [int(j) for j in cs.intersecting_tetrahedra2])))
+        return out
+    th = call_lib(bp_history, True)
+    tb = call_lib(bp_history, False)
+    if isinstance(th, LibError):
+        fails.append(fail("exception/tree-history/" + th.type, repr(th)))
+    elif not isinstance(tb, LibError):
+        for step, (got, exp) in enumerate(zip(th, tb)):
+            if got != exp:
+                fails.append(fail("broad-phase-history/" + tag,
+                                  "reused bodies, call %d: tree-based broad phase %d pairs, brute force %d, symmetric difference %d" % (
+                                      step, len(got), len(exp), len(got ^ exp)), step=step))
+                break
+
     # tree-based vs brute-force broad phase
     def pairs(use_tree):
         cs = find_contact_surface(fresh(case["a"], ya), fresh(case["b"], yb), use_aabb_trees=use_tree)
@@ -262,7 +296,7 @@ def match_known(f, case, known):
     clause = f["bucket"].split("/")[0]
     if "C16-K1" in ids and clause in ("swap-force", "swap-torque", "motion-force", "flag-swap",
                                       "flag-motion", "repeat-differs", "interleave-differs",
-                                      "action-reaction", "fresh-differs"):
+                                      "action-reaction", "fresh-differs", "details-differ"):
         Rrel = np.array(case["a"]["R"]).T.dot(np.array(case["b"]["R"]))
         if float(np.max(np.abs(Rrel))) >= 1.0 - 1e-9:
             return "C16-K1"
